@@ -436,3 +436,72 @@ def scope_bindings(arg, events):
             if o == arg or (arg != base and o == base) or (ob == base and base[0] in ('dict',) and o[:1] == ('phi',) and arg[:1] == ('phi',) and o[1:3] == arg[1:3]):
                 pairs.append((freeze(e.index), freeze(e.value)))
     return pairs
+
+
+_PLY_PATHS_CACHE: Dict[int, Tuple[list, list]] = {}
+CURRENT_FACTS = [None]       # set by run.py: the fact base of the check in progress (for helpers that only get events)
+
+
+def ply_paths(F):
+    """Where the parser object keeps its PLY lexer and LR parser: attribute paths from a SqParser instance,
+    e.g. ('lex',) / ('yacc',), or ('_frontend', 'lexer') when a helper object owns them.  Read off the assignments
+    `self.<a> = lex.lex(...)` / `yacc.yacc(...)` and `self.<x> = <HelperClass>(...)` in the parser module."""
+    key = id(F)
+    if key in _PLY_PATHS_CACHE:
+        return _PLY_PATHS_CACHE[key]
+    pq = 'smartquery.sq_parser.SqParser'
+    pm = F.cls(pq).module
+    owners = {'lexer': [], 'parser': []}          # (class qual, attr)
+    for cq, ci in F.classes.items():
+        if ci.module is not pm:
+            continue
+        for mn, mnode in ci.methods.items():
+            sp = mnode.args.args[0].arg if mnode.args.args else None
+            for n in ast.walk(mnode):
+                if isinstance(n, ast.Assign) and isinstance(n.value, ast.Call):
+                    r = F.resolve_expr(pm, n.value.func)
+                    kind = 'lexer' if r == ('ext', 'smartquery.ply.lex.lex') else ('parser' if r == ('ext', 'smartquery.ply.yacc.yacc') else None)
+                    if kind:
+                        for t in n.targets:
+                            if isinstance(t, ast.Attribute) and isinstance(t.value, ast.Name) and t.value.id == sp:
+                                owners[kind].append((cq, t.attr))
+    out = {'lexer': [], 'parser': []}
+    for kind, lst in owners.items():
+        for cq, attr in lst:
+            if cq == pq:
+                out[kind].append((attr,))
+                continue
+            # the parser holds an instance of the owner class
+            for mn, mnode in F.cls(pq).methods.items():
+                sp = mnode.args.args[0].arg if mnode.args.args else None
+                for n in ast.walk(mnode):
+                    if isinstance(n, ast.Assign) and isinstance(n.value, ast.Call) and F.resolve_expr(pm, n.value.func) == ('cls', cq):
+                        for t in n.targets:
+                            if isinstance(t, ast.Attribute) and isinstance(t.value, ast.Name) and t.value.id == sp:
+                                out[kind].append((t.attr, attr))
+    if not out['lexer']:
+        out['lexer'] = [('lex',)]
+    if not out['parser']:
+        out['parser'] = [('yacc',)]
+    _PLY_PATHS_CACHE[key] = (out['lexer'], out['parser'])
+    return _PLY_PATHS_CACHE[key]
+
+
+def _path_term(selft, path):
+    t = selft
+    for a in path:
+        t = ('attr', t, a)
+    return t
+
+
+def lexer_terms(F, selft):
+    return [_path_term(selft, p) for p in ply_paths(F)[0]]
+
+
+def parser_terms(F, selft):
+    return [_path_term(selft, p) for p in ply_paths(F)[1]]
+
+
+def lexer_term(F, selft):
+    """The (first) term that denotes the shared lexer from inside a parser method."""
+    return lexer_terms(F, selft)[0]
